@@ -29,6 +29,6 @@
 #define ROWEQ_F (FINAL_EQUED == ROW || FINAL_EQUED == BOTH)
 #define COLEQ_F (FINAL_EQUED == COL || FINAL_EQUED == BOTH)
 #define SOLVED (g_n_gstrs == 1)
-#define GHOST_FRAME g_seq, g_xerbla_calls, g_xerbla_arg, g_at_StatAlloc, g_at_StatFree, g_at_gsequ, g_at_laqgs, g_at_colorder, g_at_strf, g_at_growth, g_at_langs, g_at_gscon, g_at_gstrs, g_at_gsrfs, g_at_query, g_at_destroyAC, g_at_destroyAA, g_at_create, g_at_strf_init, g_at_finalize, g_at_malloc, g_at_free, g_n_gstrs, g_n_strf, g_n_gsrfs, g_n_gscon, g_n_malloc, g_n_free, g_n_gsequ, g_n_laqgs, g_n_growth, g_n_query, g_gstrs_trans, g_gsrfs_trans, g_init_trans, g_langs_norm, g_gscon_norm, g_gstrs_B, g_strf_A, g_gsrfs_A, g_gsrfs_B, g_gsrfs_X, g_langs_A, g_growth_A, g_colorder_A, g_gsequ_A, g_laqgs_A, g_create_A, g_gstrs_L, g_gstrs_U, g_gstrs_perm_r, g_gstrs_perm_c, g_growth_ncols, g_gsrfs_equed, g_strf_info, g_gsequ_info, g_rcond_out, g_create_nzval, g_create_rowind, g_create_colptr, g_create_m, g_create_n, g_create_nnz, g_create_stype, g_AC_token
+#define GHOST_FRAME GH_
 #define CBM(i,j) in_Bval[(i) + (j)*LDB]
 #define CXM(i,j) in_Xval[(i) + (j)*LDX]
